@@ -183,7 +183,29 @@ def run_tlc(module, cfg, workers=None, simulate=None, depth=None, seed=None, env
         e.update({k: str(v) for k, v in env.items()})
     t0 = time.time()
     try:
-        p = subprocess.run(cmd, cwd=cwd, capture_output=True, text=True, env=e, timeout=timeout, errors="replace")
+        if simulate:
+            # a finished random walk keeps stuttering and prints itself again at every step: gigabytes of repeated lines. Stream the output and
+            # keep one copy of each printed value instead of capturing everything
+            class _P:
+                pass
+            p = _P()
+            proc = subprocess.Popen(cmd, cwd=cwd, stdout=subprocess.PIPE, stderr=subprocess.STDOUT, text=True, env=e, errors="replace")
+            kept, seen_out, deadline = [], set(), time.time() + (timeout or 10 ** 9)
+            for line in proc.stdout:
+                if line.startswith('<<"'):
+                    hsh = hash(line)
+                    if hsh in seen_out:
+                        continue
+                    seen_out.add(hsh)
+                kept.append(line)
+                if time.time() > deadline:
+                    proc.kill()
+                    shutil.rmtree(meta, ignore_errors=True)
+                    raise MachineryError("TLC timed out on %s/%s" % (module, cfg))
+            proc.wait()
+            p.stdout, p.stderr, p.returncode = "".join(kept), "", proc.returncode
+        else:
+            p = subprocess.run(cmd, cwd=cwd, capture_output=True, text=True, env=e, timeout=timeout, errors="replace")
     except subprocess.TimeoutExpired:
         shutil.rmtree(meta, ignore_errors=True)
         raise MachineryError("TLC timed out on %s/%s" % (module, cfg))
